@@ -23,6 +23,7 @@ public client API on the same transport.
 from __future__ import annotations
 
 from dataclasses import dataclass
+from enum import Enum
 from typing import ClassVar, Protocol
 
 import pyarrow as pa
@@ -41,6 +42,13 @@ from vgi_rpc.utils import ArrowSerializableDataclass
 OUT_SCHEMA = pa.schema([pa.field("tag", pa.int64()), pa.field("i", pa.int64())])
 IN_SCHEMA = pa.schema([pa.field("v", pa.int64())])
 SERVER_PROTOCOL_VERSION = "1.2.0"
+
+
+class Color(Enum):
+    """Enum parameter: the server converts the wire string back to a member (C05 reaches that conversion)."""
+
+    RED = "red"
+    GREEN = "green"
 
 
 @dataclass(frozen=True)
@@ -116,6 +124,7 @@ class FaultService(Protocol):
 
     def probe(self, nonce: int) -> int: ...
     def unary(self, tag: int, mode: str, logs: int) -> int: ...
+    def enumy(self, tag: int, c: Color) -> int: ...
     def prod(self, tag: int, init: str, ilogs: int, script: str, logs: int) -> Stream[ProducerState]: ...
     def prod_h(self, tag: int, init: str, ilogs: int, script: str, logs: int) -> Stream[ProducerState, Hdr]: ...
     def exch(self, tag: int, init: str, ilogs: int, script: str, logs: int) -> Stream[ExchangeState]: ...
@@ -127,6 +136,9 @@ class FaultServiceImpl:
 
     def probe(self, nonce: int) -> int:
         return nonce
+
+    def enumy(self, tag: int, c: Color) -> int:
+        return tag * 2 + (1 if c is Color.RED else 2)
 
     def unary(self, tag: int, mode: str, logs: int, ctx: CallContext | None = None) -> int:
         if ctx is not None:
